@@ -1,17 +1,17 @@
 #!/bin/bash
-# usage: verify_seed.sh <dir containing patch.diff + demo.rs> [rustflags]
+# usage: verify_seed.sh <dir containing patch.diff + demo.rs> [rustflags] [extra cargo test args, e.g. --release]
 # Independent confirmation of a seeded change in a scratch worktree (/tmp/seedverify): with the change the demo fails and
 # the 66+2 existing tests pass; without it the demo passes.
 set -u
-D="$1"; FL="${2:-}"
+D="$1"; FL="${2:-}"; XA="${3:-}"
 V=/tmp/seedverify
 if [ ! -d $V ]; then git -C /repo worktree add -q --detach $V HEAD && cp /repo/Cargo.lock $V/; fi
 cd $V && git checkout -q -- . && rm -f tests/seed_demo.rs
 git apply --check "$D/patch.diff" || { echo "RESULT patch-does-not-apply"; exit 1; }
 cp "$D/demo.rs" tests/seed_demo.rs
-RUSTFLAGS="$FL" cargo test --offline --test seed_demo -j 8 >/tmp/seedverify.clean.log 2>&1; clean=$?
+RUSTFLAGS="$FL" cargo test --offline --test seed_demo -j 8 $XA >/tmp/seedverify.clean.log 2>&1; clean=$?
 git apply "$D/patch.diff"
-RUSTFLAGS="$FL" cargo test --offline --test seed_demo -j 8 >/tmp/seedverify.mut.log 2>&1; mut=$?
+RUSTFLAGS="$FL" cargo test --offline --test seed_demo -j 8 $XA >/tmp/seedverify.mut.log 2>&1; mut=$?
 rm -f tests/seed_demo.rs
 cargo test --workspace --no-fail-fast --offline -j 8 >/tmp/seedverify.suite.log 2>&1; suite=$?
 passed=$(grep -E "^test result: ok" /tmp/seedverify.suite.log | awk '{s+=$4} END{print s}')
